@@ -33,6 +33,17 @@ A case of this check is a *scenario* (pure JSON):
 Vacuity guard: a planned kill that never fires is labelled kill:not_reached; if more than 10 % of the planned
 kills of a run are not reached, or a planned step never fires at all, the run ends with HARNESS-ERROR (exit 2).
   work_ms   unit of the per-case sleep inside the study function (spreads the workers over the steps)
+  For scenarios without kill (the interruption is "individual cases raising"):
+  avoid_crashes  True (the module catches the exception per case, the study returns with those cases failed) or
+            False (the exception reaches the pool: the first run reports 'Study unsuccessfully concluded' and
+            returns None - that IS the interruption; the cases after the raising one in its chunk never ran)
+  same_process   False: the restart is a new python process; True: run 1 and run 2 are calls of
+            multiprocessing_run in ONE driver process (interactive session / retrying script: pathos caches its
+            pools per node count, module state survives), the driver takes the "complete at the restart"
+            snapshot in between (after the disk has gone quiet)
+  pool2     max_procs of the restart (null = the same pool size as run 1)
+  prelude   same_process only: an unrelated successful 2x2 study ran earlier in the same process, same pool size
+  Kill scenarios keep avoid_crashes=True / fresh process (the killed process is gone).
 
 Every scenario runs three times `python -m vlib.mp_driver` (own session/process group, stdin=/dev/null) in
 scratch directories under one tempfile.mkdtemp() that is always removed:
@@ -87,6 +98,8 @@ Sensitivity (tools/mut.py, quick tier, all CAUGHT; signatures seen in brackets):
 
   seeded/C18-1 (restart reads must_include with a digits regex: 1e-07 style values split)  [completes/exception, counters]
   seeded/C18-2 (restart reuses any existing result file of an unmarked case, also truncated ones) [completes/returned_none]
+  seeded/C18-3 (pool.terminate() in the crash handler leaves a dead pool in pathos' cache: rerun in the same process
+               with the same max_procs after an avoid_crashes=False failure -> 'Pool not running')  [completes/returned_none]
 Negative controls: rewording the messages ('MP Study:: Working on Case' -> 'MP Study: case', 'completed successfully'
   -> 'done') plus an extra preamble line in the log header => rc 0 with all 11 kill steps firing (injection is keyed on
   file operations); `os.makedirs(this_run_dir)` -> `os.mkdir(...)` (post_mkdir hook no longer reached) => HARNESS-ERROR
@@ -95,7 +108,7 @@ Negative controls: rewording the messages ('MP Study:: Working on Case' -> 'MP S
 Note: on the tree before 94c69eb a header_no_close log happened to restart correctly (the parser simply ran to the
 end of the file), so that variant does not discriminate the revert; header_empty and header_mid_inputs do.
 
-Measured: one scenario ~3 CPU-s (three runs of ~1 s: 0.8 s import + pool start); quick = 25 fixed + 142 generated
+Measured: one scenario ~3 CPU-s (three runs of ~1 s: 0.8 s import + pool start); quick = 31 fixed + 142 generated
 scenarios on 16 shards.
 """
 import json
@@ -111,7 +124,7 @@ import numpy as np
 from hypothesis import strategies as st
 
 from vlib import env
-from vlib.mp_driver import CASE_STEPS, HEADER_STEPS, STEPS, f_value, header_lines
+from vlib.mp_driver import CASE_STEPS, HEADER_STEPS, STEPS, f_value, header_lines, snapshot as _snapshot
 from vlib.result import Collector, HarnessError, discard
 
 ID = 'C18'
@@ -245,12 +258,21 @@ def _scenario(draw):
     n_pts = _npoints(axes)
     pool = draw(st.integers(4, 16))
     raise_set = sorted(draw(st.sets(st.integers(0, n_pts - 1), max_size=min(n_pts, 4)))) if draw(st.booleans()) else []
-    if draw(st.sampled_from(['kill'] * 7 + ['none'])) == 'none':
+    extra = {'avoid_crashes': True, 'same_process': False, 'pool2': None, 'prelude': False}
+    if draw(st.sampled_from(['kill'] * 7 + ['none'] * 2)) == 'none':
         kill = None
+        if not raise_set:
+            raise_set = sorted(draw(st.sets(st.integers(0, n_pts - 1), min_size=1, max_size=min(n_pts, 3))))
+        extra['avoid_crashes'] = draw(st.sampled_from([False, True, False]))
+        extra['same_process'] = draw(st.sampled_from([True, False, True]))
+        extra['pool2'] = draw(st.sampled_from([None, None, 4, 5, 8, 11, 16]))
+        extra['prelude'] = extra['same_process'] and draw(st.sampled_from([False, False, True]))
     else:
         kill = {'case': draw(st.integers(0, n_pts - 1)), 'step': draw(st.sampled_from(_rotated_steps())),
                 'delay_ms': draw(st.sampled_from(_DELAYS))}
-    return {'axes': axes, 'pool': pool, 'raise': raise_set, 'kill': kill, 'work_ms': draw(st.sampled_from([0, 1, 2, 5]))}
+    out = {'axes': axes, 'pool': pool, 'raise': raise_set, 'kill': kill, 'work_ms': draw(st.sampled_from([0, 1, 2, 5]))}
+    out.update(extra)
+    return out
 
 
 def strategy(tier):
@@ -291,6 +313,15 @@ def in_domain(case):
         if k is not None and not (k['step'] in STEPS and isinstance(k['case'], int) and 0 <= k['case'] < n_pts
                                   and 0 <= k['delay_ms'] <= 100):
             return False
+        if not all(isinstance(case.get(f, d), bool) for f, d in (('avoid_crashes', True), ('same_process', False), ('prelude', False))):
+            return False
+        p2 = case.get('pool2')
+        if p2 is not None and not (isinstance(p2, int) and 4 <= p2 <= 16):
+            return False
+        if k is not None and (not case.get('avoid_crashes', True) or case.get('same_process', False) or p2 is not None):
+            return False            # kill scenarios: the process is gone, restart = fresh process, avoid_crashes=True
+        if case.get('prelude', False) and not case.get('same_process', False):
+            return False
         return 0 <= case['work_ms'] <= 10
     except Exception:
         return False
@@ -329,6 +360,13 @@ def fixed_cases(tier):
         out.append({'axes': _G3, 'pool': 7, 'raise': [2], 'kill': {'case': 1, 'step': s, 'delay_ms': 0}, 'work_ms': 1})
     out.append({'axes': _GE, 'pool': 4, 'raise': [], 'kill': {'case': 1, 'step': 'post_marker', 'delay_ms': 5}, 'work_ms': 1})
     out.append({'axes': _GA, 'pool': 5, 'raise': [0, 7, 11], 'kill': None, 'work_ms': 0})
+    nk = {'kill': None, 'avoid_crashes': False, 'same_process': True, 'pool2': None, 'prelude': False}
+    out.append(dict(nk, axes=_GA, pool=4, work_ms=1, **{'raise': [7]}))                    # crash, same process, same pool
+    out.append(dict(nk, axes=_GB, pool=6, work_ms=0, **{'raise': [2, 9]}))                 # crash, same process, same pool
+    out.append(dict(nk, axes=_G3, pool=5, work_ms=2, prelude=True, **{'raise': [10]}))     # ... after an unrelated study
+    out.append(dict(nk, axes=_GA, pool=4, work_ms=1, pool2=7, **{'raise': [4]}))           # crash, same process, other pool
+    out.append(dict(nk, axes=_GB, pool=8, work_ms=1, same_process=False, **{'raise': [0, 5]}))   # crash, fresh process
+    out.append(dict(nk, axes=_GA, pool=4, work_ms=0, avoid_crashes=True, **{'raise': [3, 8]}))   # caught failures, same process
     out.append({'axes': _GB, 'pool': 16, 'raise': [2], 'kill': None, 'work_ms': 1})
     if tier == 'thorough':
         for pool, g in ((4, 'tuple'), (6, 'list'), (9, 'tuple'), (16, 'none')):
@@ -340,6 +378,12 @@ def fixed_cases(tier):
             for s in HEADER_STEPS:
                 out.append({'axes': _G33[g], 'pool': pool, 'raise': [], 'kill': {'case': 0, 'step': s, 'delay_ms': 0},
                             'work_ms': 1})
+        for pool, g in ((4, 'tuple'), (6, 'list'), (9, 'none')):
+            for r in range(9):
+                for avoid in (False, True):
+                    for same, p2, pre in ((True, None, False), (True, None, True), (True, 5, False), (False, None, False)):
+                        out.append({'axes': _G33[g], 'pool': pool, 'raise': [r], 'kill': None, 'work_ms': 1,
+                                    'avoid_crashes': avoid, 'same_process': same, 'pool2': p2, 'prelude': pre})
         for s in HEADER_STEPS:
             for k in (0, 1):
                 out.append({'axes': _G3, 'pool': 5, 'raise': [], 'kill': {'case': k, 'step': s, 'delay_ms': 0}, 'work_ms': 0})
@@ -358,7 +402,9 @@ def required_labels(tier):
     pools = ['pool:4-7'] + (['pool:8-11'] if _cpus() >= 8 else []) + (['pool:12-16'] if _cpus() >= 16 else [])
     return (['step:' + s for s in STEPS] + ['killed:' + s for s in STEPS] + pools
             + ['kill:none', 'mi:tuple', 'mi:list', 'mi:none', 'scale:log', 'scale:linear', 'dims:1', 'dims:2', 'dims:3',
-               'raise:some', 'raise:none', 'restart:reloaded_some',
+               'raise:some', 'raise:none', 'restart:reloaded_some', 'avoid_crashes:false', 'run1:study_crashed',
+               'same_process', 'same_process:same_pool', 'same_process:other_pool', 'same_process:after_prelude',
+               'fresh_process:after_crash',
                'restart:reran_some', 'at_restart:marker_and_result', 'at_restart:result_without_marker',
                'at_restart:truncated_result', 'at_restart:dir_only'])
 
@@ -491,32 +537,6 @@ def _reference(case, root):
     return key, run
 
 
-def _snapshot(study_dir):
-    """Per case number (from the directory name): what the restart will find."""
-    snap = {}
-    if not os.path.isdir(study_dir):
-        return snap
-    for name in os.listdir(study_dir):
-        m = re.fullmatch(r'index_\(.*\)_run_(\d+)', name)
-        path = os.path.join(study_dir, name)
-        if m is None or not os.path.isdir(path):
-            continue
-        marker = os.path.isfile(os.path.join(path, 'mp_success.log'))
-        npz = os.path.join(path, 'mp_results.npz')
-        state = 'absent'
-        if os.path.isfile(npz):
-            state = 'broken'
-            try:
-                with np.load(npz) as z:
-                    float(z['v'])
-                    np.asarray(z['args'])
-                state = 'complete'
-            except Exception:  # noqa - any failure to load = not a complete result file
-                pass
-        snap[int(m.group(1))] = {'marker': marker, 'npz': state, 'error': os.path.isfile(os.path.join(path, 'error.log'))}
-    return snap
-
-
 def _read_counters(counter_dir):
     lines = []
     for name in sorted(os.listdir(counter_dir)):
@@ -606,6 +626,18 @@ def evaluate(case):
             'raise:some' if raise_set else 'raise:none', 'kill:none' if kill is None else 'step:' + kill['step'])
     if pool != int(case['pool']):
         c.label('pool:capped_by_cpu_count')
+    avoid = bool(case.get('avoid_crashes', True))
+    same = bool(case.get('same_process', False))
+    prelude = bool(case.get('prelude', False))
+    pool2 = pool if case.get('pool2') is None else min(int(case['pool2']), _cpus())
+    if not avoid:
+        c.label('avoid_crashes:false')
+    if same:
+        c.label('same_process', 'same_process:same_pool' if pool2 == pool else 'same_process:other_pool')
+        if prelude:
+            c.label('same_process:after_prelude')
+    elif pool2 != pool:
+        c.label('fresh_process:other_pool')
     for ax in axes:
         c.label('scale:' + ax['scale'], 'mi:' + ax['mi_as'] + ('' if ax['mi'] or ax['mi_as'] == 'none' else '_empty'))
         if ax['mi_as'] != 'none' and ax['mi']:
@@ -616,18 +648,29 @@ def evaluate(case):
         study = os.path.join(root, 'study')
         counters = os.path.join(root, 'counters')
         os.makedirs(counters)
-        base = {'dir': study, 'inputs': _inputs_spec(axes), 'pool': pool, 'counter_dir': counters, 'force_restart': False}
+        base = {'dir': study, 'inputs': _inputs_spec(axes), 'pool': pool, 'counter_dir': counters, 'force_restart': False,
+                'avoid_crashes': avoid, 'raise_flag': os.path.join(root, 'raise_flag')}
         ref_key, ref_run = _reference(dict(case, pool=pool), root)
         if ref_run is not None:
             runs.append(ref_run)
-        run1 = _Run(root, 'run1', dict(base, raise_cases=sorted(raise_set), kill=kill, work_ms=case['work_ms']))
+        spec1 = dict(base, raise_cases=sorted(raise_set), raise_on=True, kill=kill, work_ms=case['work_ms'])
+        out2 = os.path.join(root, 'run2.out.json')
+        if same:
+            # run 1 and the restart are two calls inside one driver process
+            spec1['then'] = [{'pool': pool2, 'raise_on': False, 'out': out2}]
+            if prelude:
+                spec1['prelude_dir'] = os.path.join(root, 'prelude_study')
+        run1 = _Run(root, 'run1', spec1)
         runs.append(run1)
-        run1.finish()
+        run1.finish(RUN_TIMEOUT * (2 if same else 1))
         ctx = '| scenario: grid %s pool %d raise %s kill %s' % (shape, pool, sorted(raise_set), kill)
+        if kill is None:
+            ctx += ' avoid_crashes=%s restart in %s process with pool %d%s' % (
+                avoid, 'the SAME' if same else 'a fresh', pool2, ' after an unrelated study' if prelude else '')
 
         # ---- run 1: killed at the kill point, or finished with raising cases
         fired = run1.kill_fired()
-        if run1.hang:
+        if run1.hang and not (same and run1.payload is not None):
             c.fail({'clause': 'run1', 'kind': 'hang', 'kill_fired': fired},
                    'run 1 neither finished nor died within %.0f s %s\n%s' % (RUN_TIMEOUT, ctx, run1.log_tail()))
             return c.result()
@@ -640,17 +683,28 @@ def evaluate(case):
             if 'MISMATCH' in note:
                 raise HarnessError('header layout differs from the model of the header cut: %s' % note)
         else:
-            if run1.rc != 0 or run1.payload is None:
+            if run1.payload is None or (run1.rc != 0 and not same):
                 raise HarnessError('run 1 died without injected kill: rc=%r\n%s' % (run1.rc, run1.log_tail()))
             if kill is not None:
                 c.label('kill:not_reached')
-            if run1.payload['status'] != 'returned':
-                # an uninterrupted first run (only raising cases, caught by avoid_crashes) must return as well
+            pre = run1.payload.get('prelude')
+            if pre is not None and (pre['status'] != 'returned' or pre['n'] != 4):
+                raise HarnessError('the unrelated prelude study did not complete: %r' % (pre,))
+            if run1.payload['status'] == 'none' and not avoid and raise_set:
+                # avoid_crashes=False: the raising case crashed the study - this is the interruption
+                c.label('run1:study_crashed')
+                if not same:
+                    c.label('fresh_process:after_crash')
+            elif run1.payload['status'] != 'returned':
+                # a first run whose raising cases are caught by avoid_crashes (or that has none) must return
                 c.fail({'clause': 'run1', 'kind': run1.payload['status'], 'type': run1.payload.get('exc_type'),
                         'where': _repo_where(run1.payload.get('traceback'))},
                        'first run (no kill) did not return: %s %s' % (run1.payload.get('traceback', '')[-900:], ctx))
                 return c.result()
-        snap = _snapshot(study)
+        if same:
+            snap = {int(k): v for k, v in run1.payload['snapshot_after'].items()}
+        else:
+            snap = _snapshot(study)
         complete = {k for k, sn in snap.items() if sn['marker'] and sn['npz'] == 'complete'}
         for sn in snap.values():
             if sn['marker'] and sn['npz'] == 'complete':
@@ -674,13 +728,21 @@ def evaluate(case):
             c.label('header_lines:%d_of_%d' % (header_lines(kill['case'], len(axes)), len(axes)))
         c.nontrivial = header_kill or (bool(complete) and len(complete) < n_pts and (fired or bool(raise_set)))
         c.label('complete_at_restart:' + ('none' if not complete else 'all' if len(complete) == n_pts else 'some'))
-        executed1 = len(_read_counters(counters))
-
         # ---- run 2: restart, no faults
-        run2 = _Run(root, 'run2', dict(base, raise_cases=[], kill=None, work_ms=0))
-        runs.append(run2)
-        run2.finish()
-        ctx += ' | at restart: %d complete, %d directories, %d executions so far' % (len(complete), len(snap), executed1)
+        if same:
+            run2 = run1                     # same driver process; its second output file is the restart's
+            run2_payload = None
+            if os.path.exists(out2):
+                with open(out2) as fh:
+                    run2_payload = json.load(fh)
+        else:
+            executed1 = len(_read_counters(counters))
+            ctx += ' | %d executions before the restart' % executed1
+            run2 = _Run(root, 'run2', dict(base, pool=pool2, raise_cases=[], raise_on=False, kill=None, work_ms=0))
+            runs.append(run2)
+            run2.finish()
+            run2_payload = run2.payload
+        ctx += ' | at restart: %d complete, %d directories' % (len(complete), len(snap))
 
         # ---- reference
         if ref_run is not None:
@@ -707,10 +769,10 @@ def evaluate(case):
             c.fail({'clause': 'completes', 'kind': 'hang'},
                    'restart did not return within %.0f s %s\n%s' % (RUN_TIMEOUT, ctx, run2.log_tail()))
             return c.result()
-        if run2.payload is None:
+        if run2_payload is None:
             c.fail({'clause': 'completes', 'kind': 'died', 'rc': run2.rc}, 'restart died rc=%r %s\n%s' % (run2.rc, ctx, run2.log_tail()))
             return c.result()
-        p2 = run2.payload
+        p2 = run2_payload
         if p2['status'] == 'raised':
             c.fail({'clause': 'completes', 'kind': 'exception', 'type': p2['exc_type'], 'where': _repo_where(p2['traceback'])},
                    'restart raised %s: %s %s\n%s' % (p2['exc_type'], p2['exc'], ctx, p2['traceback'][-900:]))
